@@ -346,8 +346,10 @@ def inner_app(inner, iface, counter):
     else:
         async def app(scope, receive, send):
             counter.n += 1
-            await send({"type": "http.response.start", "status": status,
-                        "headers": [(k.encode("latin-1"), v.encode("latin-1")) for k, v in headers]})
+            start = {"type": "http.response.start", "status": status}
+            if headers:      # "headers" is optional in the ASGI specification: an application without headers may leave it out
+                start["headers"] = [(k.encode("latin-1"), v.encode("latin-1")) for k, v in headers]
+            await send(start)
             for c in chunks:
                 await send({"type": "http.response.body", "body": c, "more_body": True})
             await send({"type": "http.response.body", "body": b"", "more_body": False})
